@@ -126,6 +126,13 @@ TrNack ==
          G(D) == tags IN
      /\ UNCHANGED vars /\ Step(Verdict(G, {}), {"nack"}, "NACKHELPER")
 
+\* REMB tables (C14)
+TrRemb ==
+  /\ e.op \in {"rembdec", "rembenc"}
+  /\ LET G(D) == IF e.panic THEN {"C14:panic"}
+                 ELSE IF e.op = "rembdec" THEN RembDecTags(D, e.exp, e.args, e.out) ELSE RembEncTags(e.args, e.out) IN
+     /\ UNCHANGED vars /\ Step(Verdict(G, {}), {"nack"}, "REMB")
+
 DecRes(ev) == [ok |-> ev.ok, out |-> ev.out, panic |-> ev.panic, slow |-> ev.slow, alloc |-> ev.alloc]
 DecClass(prefix, st, ok) ==
   {prefix \o (IF st = "ok" THEN "_valid" ELSE IF st = "rej" THEN "_mustreject" ELSE "_undefined")}
@@ -188,7 +195,7 @@ TrUnitEnc ==
 TraceNext ==
   /\ l <= Len(Trace)
   /\ \/ TrBuild \/ TrSetBuf \/ TrReset \/ TrMarshal \/ TrSize \/ TrDest \/ TrHeader \/ TrString
-     \/ TrUnmarshal \/ TrDatagram \/ TrUnitDec \/ TrUnitEnc \/ TrValidate \/ TrCname \/ TrNack
+     \/ TrUnmarshal \/ TrDatagram \/ TrUnitDec \/ TrUnitEnc \/ TrValidate \/ TrCname \/ TrNack \/ TrRemb
 
 TraceSpec == TraceInit /\ [][TraceNext]_tvars
 
